@@ -5,7 +5,7 @@
    filter_namespace_doc, markupsafe escape, select_autoescape configuration, template names, explicit escape
    filters at documentation sinks -- regenerated from /repo on every run). *)
 From Coq Require Import String.
-From Verif Require Import HtmlModel HtmlThm HtmlThmTree HtmlThmLinks HtmlThmLinksAll HtmlThmOk HtmlSkel HtmlThmSkel.
+From Verif Require Import HtmlModel HtmlThm HtmlThmTree HtmlThmLinks HtmlThmLinksAll HtmlThmOk HtmlThmIds HtmlSkel HtmlThmSkel.
 Open Scope N_scope.
 
 (* (1) escape_no_markup: for EVERY string, the result of either escape function in use (html.escape inside make_unique,
@@ -138,6 +138,74 @@ Theorem C20_url_shape : forall t, filter_url_from_type t = s_up ++ ti_root_ns t 
 Proof. exact url_shape. Qed.
 Print Assumptions C20_url_shape.
 
+(* links and RUNS.  One nnvg run generates ONE root namespace into the output directory; root namespaces it reaches only through
+   --lookup-dir are read, not written.  `roots` in the two theorems above is therefore the UNION of the roots generated by all
+   the runs that share one output directory, and `ref_resolves` demands that every root a link points into is among them.
+   A run whose cross-root references are lookup-only leaves those links dangling until the other root is generated too: *)
+Theorem C20_links_resolve_union_of_runs :
+  forall runs self, In self (site_pages runs) -> (forall c, In c (refs_ns self) -> ref_resolves runs c) ->
+    page_links_ok faithful_cfg runs self = true.
+Proof. exact C20_links_resolve_now. Qed.
+Print Assumptions C20_links_resolve_union_of_runs.
+
+Theorem C20_links_lookup_only_refuted :
+  match w_site_ok with
+  | r :: _ => page_links_ok faithful_cfg [r] r = false /\ forallb (page_links_ok faithful_cfg w_site_ok) (site_pages w_site_ok) = true
+  | [] => False
+  end.
+Proof. exact links_lookup_only_refuted. Qed.
+Print Assumptions C20_links_lookup_only_refuted.
+
+(* anchors identify types.  With the '-' id scheme (tag_id_dashed, nested separator "-n": design_notes/C20_tag_id_fix.patch) ...
+   (a) filter_tag_id is injective on (full name, major, minor): *)
+Theorem C20_tag_id_injective :
+  tag_id_dashed = true ->
+  forall t1 t2, ti_is_array t1 = false -> ti_is_array t2 = false ->
+    no_dash (ti_full_name t1) = true -> no_dash (ti_full_name t2) = true -> version_ok t1 = true -> version_ok t2 = true ->
+    filter_tag_id t1 = filter_tag_id t2 ->
+    ti_full_name t1 = ti_full_name t2 /\ ti_major t1 = ti_major t2 /\ ti_minor t1 = ti_minor t2.
+Proof. exact tag_id_injective. Qed.
+Print Assumptions C20_tag_id_injective.
+
+(* (b) every id on a namespace page is the tag id of a listed type, or has no '-' (namespaces, static ids), or ends in _sidebar,
+   or is a nesting occurrence X-n<k>; *)
+Theorem C20_page_ids_classified :
+  forall cf n, ae_ti cf = false -> ae_ni cf = false -> ae_sb cf = false -> nested_id_sep = s_dash_n -> tops_ok n = true ->
+    forallb (id_class (map (fun c => filter_tag_id (ci_t c)) (all_listed n))) (page_ids cf n) = true.
+Proof. exact page_ids_classified. Qed.
+Print Assumptions C20_page_ids_classified.
+
+(* (c) hence the anchor of a type is carried ONLY by main elements of listed types with that tag id -- by (a): of that very
+   (name, version).  A link therefore lands on the referenced type, never on a nesting occurrence, a namespace or a sidebar entry. *)
+Theorem C20_type_anchor_exclusive :
+  forall cf n t, tag_id_dashed = true ->
+    ae_ti cf = false -> ae_ni cf = false -> ae_sb cf = false -> nested_id_sep = s_dash_n -> tops_ok n = true ->
+    ti_is_array t = false -> version_ok t = true ->
+    In (filter_tag_id t) (page_ids cf n) ->
+    exists c, In c (all_listed n) /\ filter_tag_id (ci_t c) = filter_tag_id t.
+Proof. exact type_anchor_exclusive. Qed.
+Print Assumptions C20_type_anchor_exclusive.
+
+(* the '_' scheme is refuted (finding F-HTML-ID-COLLISION): T v1.1 nested once gets the id of T v1.10; with the '-' scheme the
+   same page has pairwise distinct ids.  Which scheme the working tree has is `tag_id_dashed` / `nested_id_sep` (regenerated). *)
+Theorem C20_ids_collide_without_dashes : tag_id_dashed = false -> nodup_str (page_ids faithful_cfg w_site_collision) = false.
+Proof. exact ids_collide_without_dashes. Qed.
+Print Assumptions C20_ids_collide_without_dashes.
+Theorem C20_ids_unique_with_dashes :
+  tag_id_dashed = true -> nested_id_sep = s_dash_n -> nodup_str (page_ids faithful_cfg w_site_collision) = true.
+Proof. exact ids_unique_on_witness_with_dashes. Qed.
+Print Assumptions C20_ids_unique_with_dashes.
+
+(* type pages (type_base.j2): within the hypotheses of scan_render without a per-page check, like namespace pages *)
+Theorem C20_type_page_wf_unconditional :
+  forall cf c, de_tb cf = true -> tinfo_ok (ci_t c) = true ->
+    pieces_ok (type_page cf c) = true /\ wf_tokens (scan None (render (type_page cf c))) = true.
+Proof. intros cf c A B. split; [exact (type_page_pieces_ok cf c A B) | exact (type_page_wf_unconditional cf c A B)]. Qed.
+Print Assumptions C20_type_page_wf_unconditional.
+Theorem C20_type_page_wf_now : forall c, tinfo_ok (ci_t c) = true -> wf_tokens (scan None (render (type_page faithful_cfg c))) = true.
+Proof. intros c. apply type_page_wf_unconditional. vm_compute. reflexivity. Qed.
+Print Assumptions C20_type_page_wf_now.
+
 (* (6) the REAL templates.  Generated/Gen_HtmlSkel.v holds, for every template and macro of lang/html/templates, the skeleton of
    literal tags with the Jinja control structure, and the table of `{{ }}` output sites (regenerated on every run).
    Soundness of the checker: if every skeleton of a table passes, every expansion of a passing skeleton -- any branch choices,
@@ -205,7 +273,7 @@ Example C20_entry_templates_in_table :
   /\ (length html_entry_templates > 0)%nat.
 Proof. split; vm_compute; [reflexivity | lia]. Qed.
 Example C20_partial_premises_satisfiable :
-  seg_ok (ns_name w_site_subns) = true /\ forallb nst_ok w_site_ok = true /\ nst_ok w_site_subns = true.
+  seg_ok (ns_name w_site_subns) = true /\ forallb nst_ok w_site_ok = true /\ nst_ok w_site_subns = true /\ tops_ok w_site_collision = true.
 Proof. vm_compute. repeat split. Qed.
 (* the closure hypothesis of C20_links_resolve_universal holds of a site with a nested namespace whose page references a
    type of the root namespace, and the theorem's conclusion is what the model computes for it *)
